@@ -11,10 +11,13 @@ CONSTANTS
   Threads = {"t1"}
   MaxMsgs = 1
   Bodies <- BodiesTiny
+  PopulatedShortcut = FALSE
+  KeyAlias <- NoWide
   RecordHist = FALSE
 CONSTRAINT
   ScenThirdInGap
 INVARIANTS
+  RegistryKeyInjective
   FilledOnlyIfVerified
   DoneMeansFilled
   GoalThirdInGap
